@@ -216,6 +216,54 @@ def runSetters (tv : TV) : List (Setter × List FV) → TV × List TV
     let (fin, rs) := runSetters tv' rest
     (fin, tv' :: rs)
 
+-- scripted arguments: ToNumber is applied to EVERY supplied argument the algorithm names, in order,
+-- before anything is computed (§15.9.5.27–.41 steps "Let x be ToNumber(arg)", §15.9.4.3 steps 1–7)
+
+inductive Arg where
+  | num (x : FV)
+  | obj (x : FV)          -- valueOf logs its index, returns x
+  | thrower               -- valueOf logs its index, throws
+deriving DecidableEq, Repr
+
+inductive Outcome where
+  | ret (tv : TV)
+  | threw
+deriving DecidableEq, Repr
+
+/-- ToNumber on each argument in order: log of valueOf calls, and the numbers unless one threw -/
+def convAll (as : List Arg) (i : Nat) : List Nat × Option (List FV) :=
+  match as with
+  | [] => ([], some [])
+  | .num x :: rest => match convAll rest (i + 1) with
+    | (l, some vs) => (l, some (x :: vs))
+    | (l, none) => (l, none)
+  | .obj x :: rest => match convAll rest (i + 1) with
+    | (l, some vs) => (i :: l, some (x :: vs))
+    | (l, none) => (i :: l, none)
+  | .thrower :: _ => ([i], none)
+
+def Setter.arity : Setter → Nat
+  | .ms => 1 | .sec => 2 | .min => 3 | .hour => 4 | .date => 1 | .month => 2 | .year => 3 | .time => 1
+
+/-- a setter call with scripted arguments: (new time value, outcome, log).  An exception leaves the
+    time value unchanged. -/
+def setUTCS (k : Setter) (tv : TV) (args : List Arg) : TV × Outcome × List Nat :=
+  match convAll (args.take k.arity) 0 with
+  | (l, none) => (tv, .threw, l)
+  | (l, some vs) => let tv' := setUTC k tv vs; (tv', .ret tv', l)
+
+def runSettersS (tv : TV) : List (Setter × List Arg) → TV × List (Outcome × List Nat)
+  | [] => (tv, [])
+  | (k, a) :: rest =>
+    let (tv', o, l) := setUTCS k tv a
+    let (fin, rs) := runSettersS tv' rest
+    (fin, (o, l) :: rs)
+
+def dateUTCS (args : List Arg) : Outcome × List Nat :=
+  match convAll (args.take 7) 0 with
+  | (l, none) => (.threw, l)
+  | (l, some vs) => (.ret (dateUTC vs), l)
+
 -- §15.9.1.15 / §15.9.5.43 -------------------------------------------------------------
 
 /-- `w` decimal digits of n (most significant first), as ASCII bytes -/
